@@ -7,5 +7,5 @@ Extraction Language OCaml.
 Extraction "snapread_model.ml"
   read_at expected rows_of scan_req no_rpc get_data consume scan_loop scan norm_batch init_cursor canon
   locate_key locate_end_key
-  classify get batch_get final_truth
+  classify get batch_get final_truth buffer_batch_get
   c_run c_final maxts Z.of_N.
